@@ -573,9 +573,6 @@ func c16Gen(c *hmain.Ctx) {
 		{"no-time-field", genNoTimeField}, {"redis", genRedis},
 	}
 	for _, g := range gens {
-		if (g.name == "redis" || g.name == "no-time-field") && os.Getenv("C16_DEV") == "" {
-			continue // under development: not part of the check yet
-		}
 		if on(g.name) {
 			g.f(c)
 		}
